@@ -2,7 +2,7 @@
     (Generated/OpGen.v, rewritten on every run), applied coordinate by coordinate and row by row, IS Model/Emit.v's [gaussian_op] /
     [isoline_op]; and the source draws its noise in the shapes the model assumes (Model/OpFacts.v). *)
 From Coq Require Import List QArith.
-From PV Require Import Model.Store Model.Emit Model.OpFacts Generated.OpGen.
+From PV Require Import Model.Store Model.Emit Model.OpFacts Generated.OpGen Proofs.EmitProofs.
 Import ListNotations.
 Open Scope Q_scope.
 
@@ -78,6 +78,15 @@ Proof.
   destruct elites as [|e t]; [destruct H as [H|H]; [contradiction|rewrite H]|]; cbv zeta; apply gen_isoline_is_model.
 Qed.
 
+(** the coordinate expressions read from the source land inside the bounds for EVERY parent, draw and line coefficient, as soon as
+    the bounds are ordered (a missing bound constrains nothing) *)
+Theorem gen_coords_in_bounds : forall (lo hi : ebound), ebound_le lo hi ->
+  (forall p z, in_bounds (gen_gauss_coord p z lo hi) lo hi) /\
+  (forall e p1 iso g, in_bounds (gen_iso_coord e p1 iso g lo hi) lo hi).
+Proof.
+  intros lo hi Hb. split; intros; unfold gen_gauss_coord, gen_iso_coord; apply clip_in_bounds; exact Hb.
+Qed.
+
 Theorem gen_op_facts_are_model : gen_op_facts = model_op_facts.
 Proof. reflexivity. Qed.
 
@@ -86,3 +95,4 @@ Print Assumptions gen_isoline_is_model.
 Print Assumptions gen_gaussian_ask_is_model.
 Print Assumptions gen_isoline_ask_is_model.
 Print Assumptions gen_op_facts_are_model.
+Print Assumptions gen_coords_in_bounds.
